@@ -77,13 +77,29 @@ NClasses == { ClassN(al, fo, ca) : al \in BOOLEAN, fo \in BOOLEAN, ca \in BOOLEA
 NInputs == { Dct(LET idx == SelectSeq([i \in DOMAIN NCand |-> i], LAMBDA i : i \in K) IN
                  [n \in DOMAIN idx |-> <<S(NCand[idx[n]]), KeyVal(idx[n])>>] \o << <<S("b_alias"), I(77)>> >>) : K \in SUBSET (DOMAIN NCand) }
 
+\* ---- a variant of a hierarchy with a CLASS-LEVEL discriminator (Config.discriminator on the base, the tag a class variable of
+\* the variant): the discriminator field is an accepted key of the variant, with every combination of forbid_extra_keys and
+\* allow_deserialization_not_by_alias
+KOpts == << <<"field", "kind">>, <<"include_subtypes", TRUE>> >>
+DBaseK(al, fo) == <<"dc", "Ev", << <<"v", <<"int">>, <<"req">>, <<>> >> >>,
+                    << <<"discriminator", KOpts>>, <<"discr_field", "kind">> >>
+                    \o (IF al THEN << <<"allow_deserialization_not_by_alias", TRUE>> >> ELSE <<>>) \o (IF fo THEN << <<"forbid_extra_keys", TRUE>> >> ELSE <<>>) >>
+DVarK(al, fo) == <<"dc", "Click", << <<"v", <<"int">>, <<"req">>, <<>> >>, <<"x", <<"int">>, <<"val", I(1)>>, << <<"alias", "xx">> >> >> >>,
+                   << <<"bases", <<DBaseK(al, fo)>> >>, <<"classvars", << <<"kind", S("click")>> >> >>, <<"discr_field", "kind">>, <<"no_config", TRUE>> >>
+                   \o (IF al THEN << <<"allow_deserialization_not_by_alias", TRUE>> >> ELSE <<>>) \o (IF fo THEN << <<"forbid_extra_keys", TRUE>> >> ELSE <<>>) >>
+KClasses == { DVarK(al, fo) : al \in BOOLEAN, fo \in BOOLEAN }
+KCand == <<"v", "x", "xx", "kind", "zz">>
+KInputs == { Dct(LET idx == SelectSeq([i \in DOMAIN KCand |-> i], LAMBDA i : i \in K) IN
+                 [n \in DOMAIN idx |-> <<S(KCand[idx[n]]), IF KCand[idx[n]] = "kind" THEN S("click") ELSE KeyVal(idx[n])>>]) : K \in SUBSET (DOMAIN KCand) }
+
 InputFor(K) == LET idx == SelectSeq([i \in DOMAIN Candidates |-> i], LAMBDA i : i \in K) IN
                Dct([n \in DOMAIN idx |-> <<S(Candidates[idx[n]]), KeyVal(idx[n])>>])
 
 Init == T = <<"start">> /\ v = <<"nov">> /\ kind = "start"
-Next == \/ kind = "start" /\ T' \in Classes \cup SibHolders \cup NClasses /\ v' = v /\ kind' = "type"
+Next == \/ kind = "start" /\ T' \in Classes \cup SibHolders \cup NClasses \cup KClasses /\ v' = v /\ kind' = "type"
+        \/ kind = "type" /\ T[2] = "Click" /\ T' = T /\ v' \in KInputs /\ kind' = "input"
         \/ kind = "type" /\ T[2] = "KN" /\ T' = T /\ v' \in NInputs /\ kind' = "input"
-        \/ kind = "type" /\ T[2] \notin {"SH", "KN"} /\ T' = T /\ v' \in { InputFor(K) : K \in SUBSET (DOMAIN Candidates) } /\ kind' = "input"
+        \/ kind = "type" /\ T[2] \notin {"SH", "KN", "Click"} /\ T' = T /\ v' \in { InputFor(K) : K \in SUBSET (DOMAIN Candidates) } /\ kind' = "input"
         \/ kind = "type" /\ T[2] = "SH" /\ T' = T /\ v' \in SibInputs /\ kind' = "input"
 
 Dec == Unpack(T, DefaultCx, v)
@@ -92,16 +108,16 @@ Dec == Unpack(T, DefaultCx, v)
 \* exactly one key decides each field; a result never contains a value of a key outside the accepted set
 Allowed == { k[2] : k \in AllowedKeys(T) }
 ReadsOnlyAllowed ==
-  kind = "input" /\ T[2] \notin {"SH", "KN"} /\ ~IsUnknown(Dec) /\ IsOk(Dec) =>
+  kind = "input" /\ T[2] \notin {"SH", "KN", "Click"} /\ ~IsUnknown(Dec) /\ IsOk(Dec) =>
     \A i \in 1..2 : LET x == Dec[2][3][i] IN
        x = I(0) \/ \E c \in DOMAIN Candidates : KeyVal(c) = x /\ Candidates[c] \in Allowed /\ PairsHas(v[2], S(Candidates[c]))
 \* with forbid_extra_keys the error lists exactly the unexpected keys
 ExtraExact ==
-  kind = "input" /\ T[2] \notin {"SH", "KN"} /\ ~IsUnknown(Dec) /\ ~IsOk(Dec) /\ Dec[2][1] = "Extra" =>
+  kind = "input" /\ T[2] \notin {"SH", "KN", "Click"} /\ ~IsUnknown(Dec) /\ ~IsOk(Dec) /\ Dec[2][1] = "Extra" =>
     Dec[2][2] = { v[2][i][1] : i \in DOMAIN v[2] } \ AllowedKeys(T)
 \* the alias wins over the name when both are present
 AliasWins ==
-  kind = "input" /\ T[2] \notin {"SH", "KN"} /\ ~IsUnknown(Dec) /\ IsOk(Dec) =>
+  kind = "input" /\ T[2] \notin {"SH", "KN", "Click"} /\ ~IsUnknown(Dec) /\ IsOk(Dec) =>
     \A i \in 1..2 : LET f == DcFields(T)[i] IN
        (FAlias(T, f) # "#none" /\ PairsHas(v[2], S(FAlias(T, f)))) => Dec[2][3][i] = PairsGet(v[2], S(FAlias(T, f)))
 
@@ -117,5 +133,7 @@ InitFalseNeverKey ==
     LET given == { v[2][i][1] : i \in DOMAIN v[2] } \cap { S("c"), S("c_alias"), S("zz") } IN
     /\ IsOk(Dec) => Dec[2][3][3] = I(3)
     /\ (GetOpt(DcCfg(T), "forbid_extra_keys", FALSE) /\ given # {}) => (~IsOk(Dec) /\ Dec[2][1] = "Extra" /\ given \subseteq Dec[2][2])
+\* the discriminator key of the hierarchy is never reported as an extra key of the variant
+DiscrKeyAccepted == (kind = "input" /\ T[2] = "Click" /\ ~IsOk(Dec) /\ Dec[2][1] = "Extra") => S("kind") \notin Dec[2][2]
 EmitInv == kind = "input" => PrintT(ToJson(<<"inp", T, v, Dec>>))
 =============================================================================
